@@ -89,6 +89,23 @@ Proof.
   exists s. split; [eapply reachable_of_run; eauto|]. vm_compute in E. inversion E. auto.
 Qed.
 
+(* Containment at any depth: the per-scope statement above (children of ONE scope) and block structure (a task's own
+   `async with` blocks are left before its coroutine ends) lift to all descendants by induction on ancestry; the tree
+   may branch and grow arbitrarily.  [local] is exactly those two local facts; C04_local_from_scope_protocol shows that
+   the first one is what C04_contained provides for every reachable state of a scope. *)
+From Usim Require ScopeTree.
+Theorem C04_tree_contained :
+  forall (node : Type) (parent : node -> node -> Prop) (alive : node -> nat -> Prop),
+    (forall c p n, parent c p -> alive c n -> alive p n) ->
+    forall d r n, ScopeTree.descendant node parent d r -> ~ alive r n -> ~ alive d n.
+Proof. exact ScopeTree.nothing_outlives. Qed.
+Print Assumptions C04_tree_contained.
+
+Theorem C04_local_from_scope_protocol : forall k s i x, reachable k s -> nth_error (kids s) i = Some x ->
+  isdone x = false -> forall c o, ph s <> Exited c o.
+Proof. exact ScopeTree.local_from_proto. Qed.
+Print Assumptions C04_local_from_scope_protocol.
+
 (** (A) the tie to /repo's current source: every function this property's models were transcribed from has, in the
     tree this run is checking, the normalised source it had when the models were validated (hashes regenerated from
     /repo into gen/Generated.v on every run; pins in gen/SourcePins.v).  A change to one of them invalidates the
